@@ -207,6 +207,13 @@ def run(res, replay=None):
         texts.append(text); descs.append(desc)
     rc, outs = driver("END\n".join(texts) + ("END\n" if texts else ""))
     rc2, rts = driver("END\n".join(texts) + ("END\n" if texts else ""), "roundtrip")
+    # the page-link rule through the extracted, proved checker (Model/WalLink.v: link_ok_sound / link_ok_exact in Props/C08Link.v)
+    pl = subprocess.run([os.path.join(BUILD, "c08link_driver")], input="END\n".join(texts) + ("END\n" if texts else ""), capture_output=True, text=True, timeout=900, preexec_fn=big_stack)
+    louts = pl.stdout.strip().split("\n") if pl.stdout.strip() else []
+    if pl.returncode != 0 or len(louts) != len(texts):
+        res.broken.append("extracted link checker failed to run (rc=%d, %d lines for %d traces): %s" % (pl.returncode, len(louts), len(texts), pl.stderr[-200:]))
+        louts = [None] * len(texts)
+    res.extra["linked_pagewrites"] = sum(int(dict(x.split("=", 1) for x in o.split() if "=" in x).get("linked_pagewrites", 0)) for o in louts if o)
     if rc != 0 or len(outs) < len(texts):
         res.broken.append("extracted trace checker failed to run (rc=%d, %d lines for %d traces)" % (rc, len(outs), len(texts)))
         return
@@ -218,6 +225,9 @@ def run(res, replay=None):
         res.note_case(desc + "|" + o, int(kv.get("tracked_pagewrites", 0)) >= 1)
         lv = link_discipline(text)
         res.extra["link_checked_traces"] = res.extra.get("link_checked_traces", 0) + 1
+        lo = louts[texts.index(text)] if text in texts else None
+        if lo is not None and (lo.startswith("link_ok=1") != (not lv)) and len(res.mismatches) < 5:
+            res.mismatches.append(("# I/O trace (hook H1 format) of: %s\n%s" % (desc, text[:400000]), "page-link rule: extracted checker says %s, python oracle says %s" % (lo, lv[:1] or "ok")))
         if lv and len(res.oracle_failures) < 5:
             res.oracle_failures.append(("# I/O trace (hook H1 format) of: %s\n%s" % (desc, text if len(text) < 400000 else text[:400000]), "write-ahead discipline violated (page link): " + lv[0]))
         if kv.get("wal_ok") != "1" and len(res.oracle_failures) < 5:
